@@ -284,19 +284,16 @@ Qed.
 (* the statement of c19_transaction_start_too_small is false as well without q_md_only = false:
    with q_md_only = true the large-file flag is not recomputed, so a file longer than 2^32 - 1 bytes
    with a stale sc_large = false fits although the derived length of the statement is negative *)
-Lemma transaction_start_too_small_false :
-  ~ (forall s p r sn dn d,
-      s_put s = Some p -> pr_names p = Some (sn, dn) -> q_rcfg (s_p s) = Some r ->
-      lookup (fs_s s) sn = Some (File d) -> sn <> [] -> q_file_size (s_p s) = Some 0 ->
-      (s_seq_bits s = 8 \/ s_seq_bits s = 16 \/ s_seq_bits s = 32) -> 0 <= s_seq_count s < 2 ^ s_seq_bits s ->
-      derived_seg_len r (Z.max (l_idw (s_cfg s)) (pr_dstw p)) (s_seq_bits s / 8) (4294967295 <? zlen d) < 0 ->
-      snd (transaction_start s) = Err E_VALUE).
+Definition too_small_stmt : Prop := forall s p r sn dn d,
+  s_put s = Some p -> pr_names p = Some (sn, dn) -> q_rcfg (s_p s) = Some r ->
+  lookup (fs_s s) sn = Some (File d) -> sn <> [] -> q_file_size (s_p s) = Some 0 ->
+  (s_seq_bits s = 8 \/ s_seq_bits s = 16 \/ s_seq_bits s = 32) -> 0 <= s_seq_count s < 2 ^ s_seq_bits s ->
+  derived_seg_len r (Z.max (l_idw (s_cfg s)) (pr_dstw p)) (s_seq_bits s / 8) (4294967295 <? zlen d) < 0 ->
+  snd (transaction_start s) = Err E_VALUE.
+
+Lemma too_small_false_aux : forall d : bytes, zlen d = 4294967296 -> ~ too_small_stmt.
 Proof.
-  intros H.
-  pose (d := repeat 0 (Z.to_nat 4294967296)).
-  assert (Hd : zlen d = 4294967296)
-    by (unfold zlen, d; rewrite repeat_length; apply Z2Nat.id; discriminate).
-  clearbody d.
+  intros d Hd H.
   pose (r := mkRcfg 2 1 None 15 false false 0 0 1 1 1 false false 1 1).
   pose (s := mkSrc cx_cfg ST_BUSY SS_TRANSACTION_START 0 []
                (init_sparams cx_cfg <| q_rcfg := Some r |> <| q_md_only := true |>)
@@ -315,4 +312,208 @@ Proof.
     - split; vm_compute; [discriminate|reflexivity].
     - cbn. rewrite Hd. reflexivity. }
   rewrite E in Hx. discriminate Hx.
+Qed.
+
+Lemma transaction_start_too_small_false : ~ too_small_stmt.
+Proof.
+  apply (too_small_false_aux (repeat 0 (Z.to_nat 4294967296))).
+  unfold zlen. rewrite repeat_length. apply Z2Nat.id. discriminate.
+Qed.
+
+(* ------------------------------------------------------------------ the sequence-number provider *)
+Definition pres {A} (m : SM A) : Prop := forall s, s_seq_count (fst (m s)) = s_seq_count s.
+Definition mono {A} (m : SM A) : Prop := forall s, s_seq_count s <= s_seq_count (fst (m s)).
+
+Lemma pres_mono : forall A (m : SM A), pres m -> mono m.
+Proof. intros A m H s. rewrite H. lia. Qed.
+
+Lemma pres_ret : forall A (a : A), pres (ret a : SM A).
+Proof. intros A a s. reflexivity. Qed.
+Lemma pres_raise : forall A e, pres (raise e : SM A).
+Proof. intros A e s. reflexivity. Qed.
+Lemma pres_get : pres (get : SM src).
+Proof. intros s. reflexivity. Qed.
+Lemma pres_gets : forall A (f : src -> A), pres (gets f).
+Proof. intros A f s. reflexivity. Qed.
+Lemma pres_modify : forall f : src -> src,
+  (forall s, s_seq_count (f s) = s_seq_count s) -> pres (modify f).
+Proof. intros f H s. apply H. Qed.
+Lemma pres_bind : forall A B (m : SM A) (f : A -> SM B),
+  pres m -> (forall a, pres (f a)) -> pres (bind m f).
+Proof.
+  intros A B m f Hm Hf s. unfold bind. specialize (Hm s).
+  destruct (m s) as [s' [a|e]]; cbn in *; [rewrite <- Hm; apply Hf | exact Hm].
+Qed.
+Lemma pres_when : forall b (m : SM unit), pres m -> pres (when b m).
+Proof. intros [] m H; [exact H | apply pres_ret]. Qed.
+Lemma pres_get_put : forall B (g : src -> src) (k : src -> SM B),
+  (forall s, s_seq_count (g s) = s_seq_count s) -> (forall s0, pres (k s0)) ->
+  pres (bind get (fun s => bind (put (g s)) (fun _ => k s))).
+Proof. intros B g k Hg Hk s. unfold bind, get, put. cbn. rewrite (Hk s (g s)). apply Hg. Qed.
+
+Lemma mono_bind : forall A B (m : SM A) (f : A -> SM B),
+  mono m -> (forall a, mono (f a)) -> mono (bind m f).
+Proof.
+  intros A B m f Hm Hf s. unfold bind. specialize (Hm s).
+  destruct (m s) as [s' [a|e]]; cbn in *; [specialize (Hf a s'); lia | exact Hm].
+Qed.
+Lemma mono_when : forall b (m : SM unit), mono m -> mono (when b m).
+Proof. intros [] m H; [exact H | apply pres_mono, pres_ret]. Qed.
+Lemma mono_get_put : forall B (g : src -> src) (k : src -> SM B),
+  (forall s, s_seq_count s <= s_seq_count (g s)) -> (forall s0, mono (k s0)) ->
+  mono (bind get (fun s => bind (put (g s)) (fun _ => k s))).
+Proof. intros B g k Hg Hk s. unfold bind, get, put. cbn. specialize (Hk s (g s)). specialize (Hg s). lia. Qed.
+
+Create HintDb pres.
+
+Ltac pres_step :=
+  match goal with
+  | |- pres (ret _) => apply pres_ret
+  | |- pres (raise _) => apply pres_raise
+  | |- pres get => apply pres_get
+  | |- pres (gets _) => apply pres_gets
+  | |- pres (modify _) => apply pres_modify; intros []; reflexivity
+  | |- pres (when _ _) => apply pres_when
+  | |- pres (bind get _) => apply pres_get_put; [intros []; reflexivity | intro]
+  | |- pres (bind _ _) => apply pres_bind; [| intro]
+  | |- pres (match ?x with _ => _ end) => destruct x
+  | |- pres _ => solve [auto with pres]
+  end.
+Ltac pres_all := intros; repeat pres_step.
+
+Lemma pres_gq : forall A (f : sparams -> A), pres (gq f).
+Proof. unfold gq; pres_all. Qed.
+Lemma pres_setq : forall f, pres (setq f).
+Proof. unfold setq; pres_all. Qed.
+Lemma pres_sset_step : forall v, pres (sset_step v).
+Proof. unfold sset_step; pres_all. Qed.
+Lemma pres_semit : forall e, pres (semit e).
+Proof. unfold semit; pres_all. Qed.
+Lemma pres_snow : pres snow.
+Proof. unfold snow; pres_all. Qed.
+Lemma pres_sadd_packet : forall p, pres (sadd_packet p).
+Proof. unfold sadd_packet; pres_all. Qed.
+Lemma pres_sreset_internal : forall c, pres (sreset_internal c).
+Proof. unfold sreset_internal; pres_all. Qed.
+#[export] Hint Resolve pres_gq pres_setq pres_sset_step pres_semit pres_snow pres_sadd_packet
+  pres_sreset_internal : pres.
+
+Lemma pres_stid_or_assert : pres stid_or_assert.
+Proof. unfold stid_or_assert; pres_all. Qed.
+Lemma pres_srcfg_or_assert : pres srcfg_or_assert.
+Proof. unfold srcfg_or_assert; pres_all. Qed.
+Lemma pres_put_or_assert : pres put_or_assert.
+Proof. unfold put_or_assert; pres_all. Qed.
+Lemma pres_stmode : pres stmode.
+Proof. unfold stmode; pres_all. Qed.
+#[export] Hint Resolve pres_stid_or_assert pres_srcfg_or_assert pres_put_or_assert pres_stmode : pres.
+Lemma pres_smode_is : forall m, pres (smode_is m).
+Proof. unfold smode_is; pres_all. Qed.
+Lemma pres_sstep_is : forall v, pres (sstep_is v).
+Proof. unfold sstep_is; pres_all. Qed.
+#[export] Hint Resolve pres_smode_is pres_sstep_is : pres.
+
+Lemma pres_src_names : pres src_names.
+Proof. unfold src_names; pres_all. Qed.
+Lemma pres_checksum_calculation : forall sz, pres (checksum_calculation sz).
+Proof. unfold checksum_calculation; pres_all. Qed.
+#[export] Hint Resolve pres_src_names pres_checksum_calculation : pres.
+Lemma pres_prepare_file_data_pdu : forall o l, pres (prepare_file_data_pdu o l).
+Proof. unfold prepare_file_data_pdu; pres_all. Qed.
+Lemma pres_prepare_metadata_pdu : pres prepare_metadata_pdu.
+Proof. unfold prepare_metadata_pdu; pres_all. Qed.
+Lemma pres_prepare_eof_pdu : forall ck, pres (prepare_eof_pdu ck).
+Proof. unfold prepare_eof_pdu; pres_all. Qed.
+Lemma pres_start_positive_ack_procedure_s : pres start_positive_ack_procedure_s.
+Proof. unfold start_positive_ack_procedure_s; pres_all. Qed.
+#[export] Hint Resolve pres_prepare_file_data_pdu pres_prepare_metadata_pdu pres_prepare_eof_pdu
+  pres_start_positive_ack_procedure_s : pres.
+Lemma pres_handle_eof_sent : forall c, pres (handle_eof_sent c).
+Proof. unfold handle_eof_sent; pres_all. Qed.
+#[export] Hint Resolve pres_handle_eof_sent : pres.
+Lemma pres_notice_of_cancellation_s : forall c, pres (notice_of_cancellation_s c).
+Proof. unfold notice_of_cancellation_s; pres_all. Qed.
+#[export] Hint Resolve pres_notice_of_cancellation_s : pres.
+Lemma pres_declare_fault_s : forall c, pres (declare_fault_s c).
+Proof. unfold declare_fault_s; pres_all. Qed.
+#[export] Hint Resolve pres_declare_fault_s : pres.
+
+Lemma pres_retransmit_chunks : forall fuel o m sg, pres (retransmit_chunks fuel o m sg).
+Proof.
+  induction fuel; intros; cbn [retransmit_chunks]; pres_all.
+Qed.
+#[export] Hint Resolve pres_retransmit_chunks : pres.
+Lemma pres_handle_segment_req : forall rq, pres (handle_segment_req rq).
+Proof. unfold handle_segment_req; pres_all. Qed.
+#[export] Hint Resolve pres_handle_segment_req : pres.
+Lemma pres_fold_segment_reqs : forall reqs (m : SM unit), pres m ->
+  pres (fold_left (fun m rq => bind m (fun _ => handle_segment_req rq)) reqs m).
+Proof.
+  induction reqs; intros m H; cbn [fold_left]; [exact H|]. apply IHreqs. pres_all.
+Qed.
+Lemma pres_handle_retransmission : forall pkt, pres (handle_retransmission pkt).
+Proof.
+  unfold handle_retransmission; pres_all. apply pres_fold_segment_reqs. pres_all.
+Qed.
+#[export] Hint Resolve pres_handle_retransmission : pres.
+
+Lemma pres_prepare_progressing_file_data_pdu : pres prepare_progressing_file_data_pdu.
+Proof. unfold prepare_progressing_file_data_pdu; pres_all. Qed.
+#[export] Hint Resolve pres_prepare_progressing_file_data_pdu : pres.
+Lemma pres_sending_file_data_fsm : forall pkt, pres (sending_file_data_fsm pkt).
+Proof. unfold sending_file_data_fsm; pres_all. Qed.
+Lemma pres_handle_positive_ack_procedures_s : pres handle_positive_ack_procedures_s.
+Proof. unfold handle_positive_ack_procedures_s; pres_all. Qed.
+#[export] Hint Resolve pres_sending_file_data_fsm pres_handle_positive_ack_procedures_s : pres.
+Lemma pres_handle_waiting_for_ack : forall pkt, pres (handle_waiting_for_ack pkt).
+Proof. unfold handle_waiting_for_ack; pres_all. Qed.
+Lemma pres_handle_wait_for_finish : forall pkt, pres (handle_wait_for_finish pkt).
+Proof. unfold handle_wait_for_finish; pres_all. Qed.
+Lemma pres_notice_of_completion_s : pres notice_of_completion_s.
+Proof. unfold notice_of_completion_s; pres_all. Qed.
+Lemma pres_fsm_advancement_s : pres fsm_advancement_s.
+Proof. unfold fsm_advancement_s; pres_all. Qed.
+Lemma pres_check_inserted_packet_s : forall p, pres (check_inserted_packet_s p).
+Proof. unfold check_inserted_packet_s; pres_all. Qed.
+#[export] Hint Resolve pres_handle_waiting_for_ack pres_handle_wait_for_finish pres_notice_of_completion_s
+  pres_fsm_advancement_s pres_check_inserted_packet_s : pres.
+
+(* the only function that touches the provider: it takes the next value *)
+Ltac mono_step :=
+  first
+  [ apply pres_mono; solve [repeat pres_step]
+  | apply mono_when
+  | apply mono_get_put; [intros []; cbn; lia | intro]
+  | apply mono_bind; [| intro]
+  | match goal with |- mono (match ?x with _ => _ end) => destruct x end
+  | solve [auto with pres] ].
+
+Lemma mono_transaction_start : mono transaction_start.
+Proof. unfold transaction_start. repeat mono_step. Qed.
+#[export] Hint Resolve mono_transaction_start : pres.
+Lemma mono_fsm_non_idle : forall pkt, mono (fsm_non_idle pkt).
+Proof. intros pkt. unfold fsm_non_idle. repeat mono_step. Qed.
+#[export] Hint Resolve mono_fsm_non_idle : pres.
+
+Lemma seq_monotone : forall pkt s, s_seq_count s <= s_seq_count (fst (state_machine_s pkt s)).
+Proof. intros pkt. change (mono (state_machine_s pkt)). unfold state_machine_s. repeat mono_step. Qed.
+
+Lemma pres_put_request : forall p, pres (put_request p).
+Proof. unfold put_request; pres_all. Qed.
+Lemma pres_cancel_request_s : forall a b, pres (cancel_request_s a b).
+Proof. unfold cancel_request_s; pres_all. Qed.
+Lemma pres_get_next_packet_s : pres get_next_packet_s.
+Proof. unfold get_next_packet_s; pres_all. Qed.
+
+Lemma seq_unchanged_elsewhere : forall s p a b,
+  s_seq_count (fst (put_request p s)) = s_seq_count s /\
+  s_seq_count (fst (cancel_request_s a b s)) = s_seq_count s /\
+  s_seq_count (fst (get_next_packet_s s)) = s_seq_count s /\
+  s_seq_count (fst (reset_s s)) = s_seq_count s.
+Proof.
+  intros s p a b. repeat split.
+  - apply pres_put_request.
+  - apply pres_cancel_request_s.
+  - apply pres_get_next_packet_s.
+  - apply pres_sreset_internal.
 Qed.
